@@ -201,10 +201,10 @@ NTYPES = {"u8": (3, 0, 2**8 - 1, False, 8), "u16": (3, 0, 2**16 - 1, False, 16),
 NOPS = {"addf": ("add_w", 2, 2), "addo": ("op_add_si", 1, 1), "subf": ("sub_w", 2, 2), "subo": ("op_sub2", 2, 2),
         "mulf": ("lmul_w", 2, 2), "mulo": ("op_mul_si", 1, 1), "divf": ("div_w", 2, 2), "divo": ("op_div_si", 1, 1),
         "modo": ("op_mod_w", 1, 1), "sdivo": ("sdiv_q_si", 1, 1), "cmp": ("cmp_n", 2, 2), "bit": ("bit_n", 4, 3),
-        "ctor": ("ctor_n", 3, 1), "shl": ("shl_cnt", 1, 1), "shr": ("shr2_cnt", 2, 2), "expw": ("exp_mod_n", 1, 1)}
+        "saddf": ("op_addsub_si", 2, 2), "sremo": ("sdiv_r", 1, 1), "ctor": ("ctor_n", 3, 1), "shl": ("shl_cnt", 1, 1), "shr": ("shr2_cnt", 2, 2), "expw": ("exp_mod_n", 1, 1)}
 for _ty, (_part, _lo, _hi, _sg, _bits) in NTYPES.items():
     for _op, (_m, _nres, _mres) in NOPS.items():
-        if (_op in ("shl", "shr") and _ty == "dbl") or (_op == "expw" and (_sg or _ty == "bool")):
+        if (_op in ("shl", "shr") and _ty == "dbl") or (_op == "expw" and (_sg or _ty == "bool")) or (_op in ("saddf", "sremo") and _ty in ("dbl", "bool")):
             continue
         VARIANTS["nat.%s.%s" % (_op, _ty)] = dict(_v(_m, "nat:%s:%s" % (_op, _ty), None, _nres, _part), mres=_mres)
 VARIANTS["nat.cast"] = dict(_v("cast", "nat:cast:", None, 9, 3))
@@ -442,6 +442,11 @@ def oracle_native(spec, K, a):
         return None if c <= 0 else [x % c]
     if op == "sdivo":
         return None if c == 0 else [tdiv(sx, c) % Bk]
+    if op == "saddf":
+        return [(sx + c) % Bk, (sx - c) % Bk]
+    if op == "sremo":                              # remainder of the truncated division (sign of the dividend), modulo |c|
+        sc = sval(c % Bk, K)                       # the divisor is rint<K>(c): an unsigned c >= 2^63 is negative at K = 6
+        return None if abs(sc) <= 1 else [(sgn(sx) * (abs(sx) % abs(sc))) % Bk]
     if op == "cmp":
         return [sgn(x - c), sgn(sx - c)]
     if op == "bit":
@@ -469,6 +474,8 @@ NAT_FORMS = {
     "mulf": "lmul(limb&,a,b,T) mul(a,b,T) mul(a,T) lmul(limb&,a,a,T) mul(rint,rint,T) mul(rint,T)",
     "mulo": "a*T T*a a*=T rint*T T*rint rint*=T",
     "divf": "div(q,T&,a,T) div_q(q,a,T) div_r(T&,a,T) div(a,T&,a,T)",
+    "saddf": "add(rint,rint,T) add(rint,T) add(r,rint,rint,T) add(r,rint,T) and the four sub forms, T of any sign",
+    "sremo": "div_r(rint,rint,rint) rint%rint rint%=rint with a divisor of any sign",
     "divo": "a/T a/=T", "modo": "a%T a%=T", "sdivo": "div_q(rint,rint,T) rint/T rint/=T",
     "cmp": "cmp(a,T) and == != < <= > >= in both operand orders, for ruint<K> and rint<K>",
     "bit": "a|T a|=T a^T a^=T a&T a&=T rint^=T rint&=T",
@@ -985,6 +992,10 @@ def site_of(v, spec):
         return "RecInt::sub(ruint<6>, double)"
     if v.startswith("nat.ctor.i") or v == "nat.ctor.ll":
         return "RecInt::ruint<K>::ruint(signed T)"
+    if v.startswith("nat.saddf."):
+        return "RecInt::add/sub(rint<K>, native word)"
+    if v.startswith("nat.sremo."):
+        return "RecInt::div_r(rint<K>, rint<K>)"
     return SITES.get(spec, "RecInt::" + v)
 
 
@@ -994,6 +1005,10 @@ def klass_of(v, spec, K, a):
         return "Integer<0" if a[1] < 0 else "K=%d" % K
     if v in ("nat.subf.dbl", "nat.subo.dbl", "nat.addo.dbl"):
         return "K=6,double" if K == 6 else "K=%d" % K
+    if v.startswith("nat.saddf."):
+        return "K>=7,word<0" if K >= 7 and a[1] < 0 else "K=%d" % K
+    if v.startswith("nat.sremo."):
+        return "divisor<0" if sval(a[1] % (1 << (1 << K)), K) < 0 else "K=%d" % K
     if v == "nat.ctor.i32" or v == "nat.ctor.i64" or v == "nat.ctor.ll":
         return "most-negative" if a[1] == NTYPES[v.split(".")[2]][1] else "K=%d" % K
     if v.startswith("shl.u8") or v.startswith("shr.u8"):
@@ -1245,12 +1260,14 @@ def native_values(ty, op):
         neg = [-1, lo + 1, -2, -3, -(hi // 2), -10]
         if op == "ctor" and ty != "dbl":
             neg.append(lo)                               # the most negative value of the type
-        if op in ("addo", "subo", "mulo", "divo", "sdivo", "cmp", "ctor"):
+        if op in ("addo", "subo", "mulo", "divo", "sdivo", "cmp", "ctor", "saddf", "sremo"):
             vals = [vals[0], neg[0], vals[1], neg[1]] + vals[2:] + neg[2:]
     if op in ("divf", "modo"):
         vals = [x for x in vals if x > 0]
     if op in ("divo", "sdivo"):
         vals = [x for x in vals if x != 0]
+    if op == "sremo":
+        vals = [x for x in vals if abs(x) > 1]
     return vals
 
 
@@ -1276,7 +1293,7 @@ def directed_cases(rng, tier):
         core, rest = limb_patterns(K)
         for oi, op in enumerate(sorted(NOPS)):
             tys = [t for t in types if "nat.%s.%s" % (op, t) in VARIANTS]
-            heavy = op in ("divf", "divo", "modo", "sdivo")
+            heavy = op in ("divf", "divo", "modo", "sdivo", "sremo")
             if op == "ctor":
                 for t in tys:
                     for c in native_values(t, op):
@@ -1371,6 +1388,8 @@ def model_args(v, K, a):
             return [1 if sg else 0] + list(a[:2])
         if op == "expw":
             return [bits] + list(a)
+        if op == "sremo":
+            return [a[0], abs(sval(a[1] % (1 << (1 << K)), K))]      # the repaired code divides by |rint<K>(c)|
         return list(a[:2])
     if v == "nat.consts":
         return [SRC_CONST.get("thirtyonepointfive", 0)]
@@ -1671,6 +1690,8 @@ def main(tier, replay=None):
                     kl = "lastx"        # only the first coefficient is wrong
                 chk.fail_input(site_of(v, spec), kl, case, exp, iout[i],
                                "implementation differs from integer arithmetic reduced to 2^K bits")
+        if exp is None and spec.startswith("nat:"):
+            continue                        # outside the documented domain of the native form (e.g. a divisor that wraps to -1): nothing to compare
         if i in mout and not bad_spec:      # a failing input is reported once, not again as a correspondence break
             mres = info.get("mres", nres)
             mg = [tok(t) for t in mout[i].split()][MODEL_PICK.get(spec, 0):][:mres]
